@@ -426,7 +426,7 @@ pub fn run(run: &Run) {
          (commas, quotes, non-ASCII, empty); malformed rows by construction: 0/1/2 fields only, 16 bad property spellings (typo, lower case, dangling or \
          leading 'or', unknown member, 'and', a valid single/pair with junk or a third member before or after it), 16 bad code point spellings (empty, non-hex, \
          > 10FFFF, dangling/doubled/tripled '-', blank inside, '..', 'U+', '0x', junk prefix/suffix); whole files \
-         (header + 0..12 rows, and big files of 100..600 rows with descriptions up to 300 characters; LF or CRLF, with/without final newline; files with single lines of 4 KiB .. 300 KB) written under /verif/work and read through \
+         (header + 0..12 rows, and big files of 100..600 rows with descriptions up to 300 characters; LF or CRLF, with/without final newline; files with single lines of 4 KiB .. 32 MiB) written under /verif/work and read through \
          CsvLineParser::from_path by sequential iteration AND by nth/skip/step_by/last/count on a fresh parser; every \
          property-name string of the 7 names and near-misses; the real IANA file against my own CSV reader. Deliberately not asserted either way: \
          lower-case or sign-prefixed hex, over-long zero padding, reversed ranges. Oracle: round trip against the generator's structured row (same code \
@@ -525,7 +525,7 @@ pub fn run(run: &Run) {
     // huge lines: descriptions around the usual buffer / limit sizes, followed by normal and malformed rows
     let base4 = base.clone();
     run.par("huge_lines", true, |tid, n, l| {
-        let sizes = [4095usize, 4096, 4097, 8190, 8191, 8192, 8193, 16384, 65534, 65535, 65536, 65537, 70000, 131071, 131073, 300000];
+        let sizes = [4095usize, 4096, 4097, 8190, 8191, 8192, 8193, 16384, 65534, 65535, 65536, 65537, 70000, 131071, 131073, 300000, 1 << 20, (1 << 20) + 1, 4 << 20, (16 << 20) - 1, (16 << 20) + 100, (32 << 20) + 7];
         for (i, sz) in sizes.iter().enumerate() {
             if i % n != tid {
                 continue;
@@ -533,6 +533,9 @@ pub fn run(run: &Run) {
             let dir = base4.join(format!("h{tid}"));
             std::fs::create_dir_all(&dir).expect("mkdir work");
             for unit in ["x", "a,b ", "\u{e9}", "\u{10428},"] {
+                if *sz >= (1 << 20) && unit != "x" {
+                    continue; // the multi-megabyte lines once each
+                }
                 let desc: String = unit.repeat(sz / unit.len() + 1);
                 let mk = |start: u32, mal: Mal, desc: &str| Row { start, end: None, width: 4, p1: 0, p2: None, desc: desc.to_string(), mal };
                 let rows = vec![
